@@ -105,7 +105,7 @@ Proof.
 Qed.
 
 (* ---- XUnm (outside the modelled date forms) only comes out of g_parse ---- *)
-Definition noUnm {A} (r : gres A) : Prop := match r with GExc XUnm => False | _ => True end.
+Definition noUnm {A} (r : gres A) : Prop := match r with GExc XUnm | GExc XType => False | _ => True end.
 Lemma noUnm_bind {A B} (a : gres A) (f : A -> gres B) : noUnm a -> (forall x, noUnm (f x)) -> noUnm (gbind a f).
 Proof. destruct a as [x|[]]; cbn; auto. Qed.
 Lemma noUnm_mapM {A B} (f : A -> gres B) l : (forall x, noUnm (f x)) -> noUnm (gmapM f l).
@@ -116,7 +116,7 @@ Qed.
 Lemma noUnm_int s : noUnm (g_int s). Proof. unfold g_int. destruct (py_int s); exact I. Qed.
 Lemma noUnm_lookup t k : noUnm (g_lookup t k).
 Proof. induction t as [|[n v] t IH]; [exact I|]. cbn. destruct (leqb n k); [exact I|exact IH]. Qed.
-Lemma noUnm_nth l i : noUnm (g_nth l i). Proof. unfold g_nth. destruct (nth_error l i); exact I. Qed.
+Lemma noUnm_nth {A} (l : list A) i : noUnm (g_nth l i). Proof. unfold g_nth. destruct (nth_error l i); exact I. Qed.
 Lemma noUnm_weekday i n : noUnm (g_weekday i n).
 Proof. unfold g_weekday. destruct ((0 <=? i) && (i <=? 6)); [|exact I]. destruct n as [[| |]|]; exact I. Qed.
 
